@@ -1,4 +1,5 @@
 import MM.Props.C05C06
+import MM.Props.MemoTie
 #print axioms MM.Numeric.C06_closed_form
 #print axioms MM.Numeric.C06_posterior_scale
 #print axioms MM.Numeric.C06_posterior_loc
@@ -9,3 +10,4 @@ import MM.Props.C05C06
 #print axioms MM.Numeric.C06_summary_probability
 #print axioms MM.Numeric.ols_resid_sum
 #print axioms MM.Numeric.ols_rss
+#print axioms MM.Memo.tie_memoised
